@@ -1,0 +1,39 @@
+//go:build verif
+
+package lang
+
+// Verification hooks (build tag "verif"). Not compiled into normal builds.
+
+// VerifStepBudget, when positive, bounds the number of statements one
+// process may execute between two calls of VerifResetProcessState; exceeding
+// it ends the run with a runtime error so that arbitrary generated programs
+// terminate deterministically under simulation. 0 means unlimited.
+var VerifStepBudget int64
+
+var verifSteps int64
+
+func (e *Evaluator) verifStep() error {
+	if VerifStepBudget <= 0 {
+		return nil
+	}
+	verifSteps++
+	if verifSteps > VerifStepBudget {
+		return e.error(Token{}, "verif: step budget exceeded")
+	}
+	return nil
+}
+
+// VerifFrameDepth reports the nesting depth of the innermost stack frame.
+func (e *Evaluator) VerifFrameDepth() int {
+	return e.stackTop.depth
+}
+
+// VerifResetProcessState drops the lazily built process-level state (the
+// prototype singletons) and the step counter: a simulated process restart.
+func VerifResetProcessState() {
+	arrayPrototype = nil
+	objPrototype = nil
+	strPrototype = nil
+	numPrototype = nil
+	verifSteps = 0
+}
